@@ -38,13 +38,13 @@ type verifC14History struct {
 	States [][]*verifC14Scope
 }
 
-func verifC14GenHistory(rt *rapid.T, minOps, maxOps int) *verifC14History {
+func verifC14GenHistory(rt *rapid.T, minOps, maxOps, reopenPct int) *verifC14History {
 	w := verifC14NewWorld(rt)
 	h := &verifC14History{Scopes: w.Scopes, Open: verifC14GenOpen(rt)}
 	n := maxOps - rapid.IntRange(0, maxOps-minOps).Draw(rt, "nOpsBelowMax") // rapid favours small draws: favour long histories
 	h.States = append(h.States, w.snapshot())
 	for i := 0; i < n; i++ {
-		op := w.genOp(rt, true, true, false)
+		op := w.genOp(rt, true, reopenPct, false)
 		w.applyModel(&op)
 		h.Ops = append(h.Ops, op)
 		h.States = append(h.States, w.snapshot())
@@ -209,7 +209,7 @@ func TestVerifC14PowerLoss(t *testing.T) {
 	kit.Check(t, "C14", func(rt *rapid.T, k *kit.Case) {
 		dir, clean := kit.TempDir()
 		defer clean()
-		h := verifC14GenHistory(rt, 4, maxOps)
+		h := verifC14GenHistory(rt, 4, maxOps, 8)
 		j := rapid.IntRange(0, len(h.Ops)-1).Draw(rt, "crashStep")
 		if pm := rapid.IntRange(0, 7).Draw(rt, "preferMutation"); pm > 1 {
 			// most crash points go into a mutation: move to the next accepted
@@ -401,7 +401,7 @@ const verifC14KillSyscalls = "write,pwrite64,fsync,fdatasync,rename,renameat,ren
 func verifC14Calibrate(t *testing.T, bin, strace string) (base, perOp int) {
 	dir, clean := kit.TempDir()
 	defer clean()
-	h := rapid.Custom(func(rt *rapid.T) *verifC14History { return verifC14GenHistory(rt, 10, 10) }).Example(7)
+	h := rapid.Custom(func(rt *rapid.T) *verifC14History { return verifC14GenHistory(rt, 10, 10, 3) }).Example(7)
 	var buf bytes.Buffer
 	if err := gob.NewEncoder(&buf).Encode(verifC14ChildInput{Path: filepath.Join(dir, "raft"), Scopes: h.Scopes, Open: h.Open, Ops: h.Ops}); err != nil {
 		return 0, 0
@@ -477,7 +477,7 @@ func TestVerifC14Kill(t *testing.T) {
 	kit.Check(t, "C14", func(rt *rapid.T, k *kit.Case) {
 		dir, clean := kit.TempDir()
 		defer clean()
-		h := verifC14GenHistory(rt, 2, maxOps)
+		h := verifC14GenHistory(rt, 3, maxOps, 3)
 		path := filepath.Join(dir, "raft")
 		useStrace := strace != "" && rapid.Bool().Draw(rt, "killByStrace")
 		// strace counts injections per traced thread; the calibrated window
@@ -488,6 +488,9 @@ func TestVerifC14Kill(t *testing.T) {
 			when = 1
 		}
 		afterLines := rapid.IntRange(1, 2*len(h.Ops)).Draw(rt, "killAfterLines")
+		if afterLines%2 == 0 && rapid.IntRange(0, 3).Draw(rt, "killAfterIssued") > 0 {
+			afterLines-- // right after an "issued i" line: the kill lands inside step i
+		}
 		delayUS := rapid.IntRange(0, 1500).Draw(rt, "killDelayUS")
 		reopenOpts := verifC14GenOpen(rt)
 		qs := verifC14GenQueries(rt, 3)
